@@ -54,7 +54,7 @@ def all_enums(spec):
 def all_methods(spec, package=None):
     out = []
     for f in spec["files"]:
-        if package and f["package"] != package:
+        if package and f["package"] != package and not f["package"].startswith(package + "."):
             continue
         for s in f["services"]:
             out += [f"{f['package']}.{s['name']}.{m['name']}" for m in s["methods"]]
@@ -341,6 +341,109 @@ def clash_subset(r, spec):
     fm = [f"{PKG}.{foo}.{m['name']}" for m in svcs[foo]["methods"]]
     sub = set(f"{PKG}.{basefoo}.{m['name']}" for m in svcs[basefoo]["methods"]) | set(r.sample(fm, r.randint(0, len(fm) - 1)))
     return sorted(sub)
+
+
+VIEW_LAYOUTS = {          # which packages declare services: () = the target package itself, ("sub",) = acme.lib.v1.sub, ...
+    "mixed": [(), ("sub",)],
+    "twosubs": [("sub",), ("aux",)],
+    "nested": [("sub",), ("sub", "deep")],
+    "mixed-nested": [(), ("sub",), ("sub", "deep")],
+    "sub-only": [("sub",)],
+}
+VIEW_SVC_NAMES = ["Library", "Widgets", "Gears", "Tools", "Depot", "Vault", "Annex"]
+VIEW_DATA_NAMES = ["Book", "Widget", "Gear", "Tool", "Crate", "Shelf", "Gadget", "Cog", "Kit", "Bin"]
+
+
+def gen_views_spec(r: apigen.Rng, *, t3=False, layout=None):
+    """services in more than one package view: the target package and proto sub-packages of it (each sub-package is
+    rendered as a view of its own: own services/, types/, __init__), types shared across views through a root file
+    without services and (sometimes) a types-only sub-package file."""
+    layout = layout or r.pick(sorted(VIEW_LAYOUTS))
+    shared = {"name": "acme/lib/v1/shared.proto", "package": PKG, "deps": [], "resdefs": [], "enums": ["Color"], "messages": [
+        _msg("Tag", [{"name": "name", "t": "string"}, {"name": "color", "enum": f".{PKG}.Color"}], enums=["Kind"]),
+        _msg("Meta", [{"name": "name", "t": "string"}, {"name": "tag", "msg": f".{PKG}.Tag"}],
+             nested=[_msg("Part", [{"name": "size", "t": "int32"}])])], "services": []}
+    shared["messages"][1]["fields"].append({"name": "part", "msg": f".{PKG}.Meta.Part"})
+    files = [shared]
+    pool = [f".{PKG}.Tag", f".{PKG}.Meta", f".{PKG}.Meta.Part"]          # message types later files may refer to
+    epool = [f".{PKG}.Color", f".{PKG}.Tag.Kind"]
+    if r.maybe(0.5):
+        parts = {"name": "acme/lib/v1/sub/parts.proto", "package": PKG + ".sub", "deps": [shared["name"]], "resdefs": [], "enums": ["Grade"],
+                 "messages": [_msg("Bolt", [{"name": "name", "t": "string"}, {"name": "tag", "msg": f".{PKG}.Tag"}]),
+                              _msg("Nut", [{"name": "name", "t": "string"}, {"name": "grade", "enum": f".{PKG}.sub.Grade"}])], "services": []}
+        files.append(parts)
+        pool += [f".{PKG}.sub.Bolt", f".{PKG}.sub.Nut"]; epool.append(f".{PKG}.sub.Grade")
+    dnames = list(VIEW_DATA_NAMES); r.shuffle(dnames)
+    snames = list(VIEW_SVC_NAMES)
+    for vi, view in enumerate(VIEW_LAYOUTS[layout]):
+        pkg = ".".join([PKG] + list(view))
+        vf = {"name": "/".join(["acme/lib/v1"] + list(view) + [f"svc{vi}.proto"]), "package": pkg, "deps": [x["name"] for x in files],
+              "resdefs": [], "enums": [], "messages": [], "services": []}
+        data = []
+        if not view:
+            # the target package's own files do not refer to types of its sub-packages (python modules importing each
+            # other across the package/sub-package boundary in both directions is C01's subject, not this one's)
+            vpool = [t for t in pool if not t.startswith(f".{PKG}.sub.")]
+            vepool = [t for t in epool if not t.startswith(f".{PKG}.sub.")]
+        else:
+            vpool, vepool = pool, epool
+        for _ in range(r.randint(1, 2)):
+            dn = dnames.pop()
+            m = _msg(dn, [{"name": "name", "t": "string"}])
+            for k in range(r.randint(0, 2)):
+                c = r.random()
+                if c < 0.55:
+                    m["fields"].append({"name": f"f{k}", "msg": r.pick(vpool), "repeated": r.maybe(0.3)})
+                elif c < 0.8:
+                    m["fields"].append({"name": f"f{k}", "enum": r.pick(vepool)})
+                else:
+                    m["fields"].append({"name": f"f{k}", "t": r.pick(SCALARS)})
+            if r.maybe(0.3):
+                m["enums"].append("State")
+            vf["messages"].append(m); data.append(f".{pkg}.{dn}")
+        for si in range(1 if r.maybe(0.7) else 2):
+            svc = {"name": snames.pop(0), "methods": []}
+            for mi in range(r.randint(1, 3)):
+                tgt = r.pick(data + ([r.pick(vpool)] if r.maybe(0.25) else []))
+                short = tgt.split(".")[-1]
+                kind = r.pick(["get", "get", "list", "create"])
+                mname = {"get": "Get", "list": "List", "create": "Create"}[kind] + short + svc["name"][:1] + str(mi)
+                rq = _msg(mname + "Request", [{"name": "name", "t": "string"}])
+                if r.maybe(0.4):
+                    rq["fields"].append({"name": "hint", "msg": r.pick(vpool + data)})
+                meth = {"name": mname, "input": f".{pkg}.{rq['name']}", "output": tgt}
+                if kind == "list":
+                    rq["fields"] += [{"name": "page_size", "t": "int32"}, {"name": "page_token", "t": "string"}]
+                    rs = _msg(mname + "Response", [{"name": "items", "msg": tgt, "repeated": True}, {"name": "next_page_token", "t": "string"}])
+                    vf["messages"].append(rs)
+                    meth["output"] = f".{pkg}.{rs['name']}"
+                elif kind == "create" and r.maybe(0.4):
+                    meth["output"] = ".google.protobuf.Empty"
+                vf["messages"].append(rq)
+                svc["methods"].append(meth)
+            vf["services"].append(svc)
+        files.append(vf)
+        pool += data
+    spec = {"files": files, "target_package": PKG, "version": PKG, "listed": [], "internal": False, "layout": layout}
+    meths = all_methods(spec, PKG)
+    spec["listed"] = sorted(r.sample(meths, r.randint(1, min(4, len(meths)))))
+    spec["internal"] = r.maybe(0.5)
+    if t3:
+        spec["rest"] = r.maybe(0.4)
+        spec["mixins"] = False          # mixins in sub-package views are C17's subject
+    return spec
+
+
+def view_variants(r, spec):
+    """subsets that matter for views: one RPC of every service-bearing package (omit and internal), every RPC of the API,
+    the RPCs of ONE package only, one RPC of one package in internal mode"""
+    by_pkg = {}
+    for f, s in target_services(spec):
+        by_pkg.setdefault(f["package"], []).extend(f"{f['package']}.{s['name']}.{m['name']}" for m in s["methods"])
+    one_each = sorted(r.pick(ms) for ms in by_pkg.values())
+    only = r.pick(sorted(by_pkg))
+    return [(one_each, False), (one_each, True), (sorted(m for ms in by_pkg.values() for m in ms), False),
+            (sorted(by_pkg[only]), False), ([r.pick(by_pkg[r.pick(sorted(by_pkg))])], True)]
 
 
 def subsets(r, spec, n):
@@ -841,6 +944,46 @@ def hazard_unusable_symptom(d: Descs, hz, required, bad):
     return True
 
 
+KNOWN_MULTIVIEW = "multi-view:settings-validated-per-view"
+
+
+def view_settings_errors(api):
+    """[(view, text, parsed)] for every sub-package view of the real (selective) API whose all_library_settings raises"""
+    from gapic.schema import api as gapi
+    out = []
+
+    def walk(a):
+        for _, sub in a.subpackages.items():
+            try:
+                sub.all_library_settings
+            except gapi.ClientLibrarySettingsError as e:
+                try:
+                    parsed = parse_settings_error(e)
+                except Exception:  # noqa
+                    parsed = None
+                out.append((tuple(sub.subpackage_view), str(e), parsed))
+            walk(sub)
+    walk(api)
+    return out
+
+
+def multiview_symptom(spec, api_sel, listed, internal, req_services, err):
+    """the recorded defect and nothing else: the generator stops with ClientLibrarySettingsError because the view of a
+    proto sub-package that declares a service of the library validates the allow-list against its own methods only —
+    the error names exactly the listed methods that live outside that view, each as 'Method does not exist.'"""
+    if not err or not str(err[0]).startswith("ClientLibrarySettingsError@schema/api.py:enforce_valid_library_settings"):
+        return False
+    for v, text, parsed in view_settings_errors(api_sel):
+        if text[:300] != err[1] or not v:
+            continue
+        vs = "." + ".".join(v)
+        holders = [s for f, s in target_services(spec) if view_of(f["package"]) == vs and (internal or f"{f['package']}.{s['name']}" in req_services)]
+        outside = {m for m in listed if not (m.rsplit(".", 2)[0] + ".").startswith(PKG + vs + ".")}
+        if holders and outside and parsed == {spec["version"]: {m: "missing" for m in outside}}:
+            return True
+    return False
+
+
 def features(spec, d, listed, req_types):
     fs = set()
     for f in spec["files"]:
@@ -857,9 +1000,13 @@ def features(spec, d, listed, req_types):
                     if m.get("ss"): fs.add("stream-kept")
                 elif m.get("lro"):
                     fs.add("lro-dropped")
+    if spec.get("layout"):
+        fs.add("views:" + spec["layout"])
+        lp = {m.rsplit(".", 2)[0] for m in listed}
+        fs.add("views:listed-in-%d-package%s" % (len(lp), "" if len(lp) == 1 else "s"))
     tnames = [s["name"] for f, s in target_services(spec)]
     for f, s in target_services(spec):
-        unl = [m for m in s["methods"] if f"{PKG}.{s['name']}.{m['name']}" not in listed]
+        unl = [m for m in s["methods"] if f"{f['package']}.{s['name']}.{m['name']}" not in listed]
         if s["name"].startswith("Base"):
             fs.add("name:service-starts-with-Base" + ("-some-rpc-unlisted" if unl else "-all-listed"))
             if s["name"][4:] in tnames:
@@ -1134,7 +1281,22 @@ def rpc_names(m, internal=False):
 
 
 def target_services(spec):
-    return [(f, s) for f in spec["files"] if f["package"] == PKG for s in f["services"]]
+    """(file, service) of the target package and of its sub-packages (each sub-package is rendered as a view of its own)"""
+    return [(f, s) for f in spec["files"] if f["package"] == PKG or f["package"].startswith(PKG + ".") for s in f["services"]]
+
+
+def view_of(package):
+    """'' for the target package, '.sub' / '.sub.deep' for its sub-packages: the suffix of the python package of that view"""
+    return package[len(PKG):]
+
+
+def views(spec):
+    """the distinct view suffixes of the files of the target package, root first"""
+    out = [""]
+    for f in spec["files"]:
+        if f["package"].startswith(PKG + ".") and view_of(f["package"]) not in out:
+            out.append(view_of(f["package"]))
+    return out
 
 
 MIXIN_NAMES = {"get_location", "list_locations", "get_operation", "cancel_operation"}
@@ -1143,7 +1305,7 @@ MIXIN_NAMES = {"get_location", "list_locations", "get_operation", "cancel_operat
 def with_mixins(spec, doc):
     """service yaml + the Locations / Operations mixins (C17's mechanism; here: selective settings must not disturb them)"""
     doc = dict(doc or {"type": "google.api.Service", "config_version": 3, "name": "lib.example.com"})
-    doc["apis"] = [{"name": f"{PKG}.{s['name']}"} for f, s in target_services(spec)] + \
+    doc["apis"] = [{"name": f"{f['package']}.{s['name']}"} for f, s in target_services(spec)] + \
                   [{"name": "google.cloud.location.Locations"}, {"name": "google.longrunning.Operations"}]
     doc["http"] = {"rules": [
         {"selector": "google.cloud.location.Locations.GetLocation", "get": "/v1/{name=projects/*/locations/*}"},
@@ -1164,10 +1326,10 @@ def call_plan(r, spec, codec):
     plan = {}
     for f, s in target_services(spec):
         for m in s["methods"]:
-            fq = f"{PKG}.{s['name']}.{m['name']}"
+            fq = f"{f['package']}.{s['name']}.{m['name']}"
             if m.get("opservice") or m.get("polling") or m["output"] == f".{PKG}.Operation":
                 continue                      # extended operations: surface only (REST polling is C08's business)
-            path = f"/{PKG}.{s['name']}/{m['name']}"
+            path = f"/{f['package']}.{s['name']}/{m['name']}"
             inp = m["input"].lstrip(".")
             req = rpc.rand_msg(r, codec, inp, p_set=0.7)
             call = {"fqn": fq, "input": inp, "request_b64": codec.encode_b64(inp, req), "consume": "value", "path": path,
@@ -1229,16 +1391,18 @@ def run_library(spec, files, api, doc, plan, call_names, deep=True):
     try:
         pkg = "acme.lib_v1"
         ops = [{"op": "import_all", "package": pkg}, {"op": "proto_classes", "module": pkg + ".types"}]
-        sub_i = None
-        if has_sub(spec):
-            sub_i = len(ops)
-            ops.append({"op": "proto_classes", "module": pkg + ".sub.types"})
-        exp_i = len(ops)
-        ops.append({"op": "package_exports", "package": pkg})
+        sub_is = []
+        for v in views(spec)[1:]:
+            sub_is.append(len(ops))
+            ops.append({"op": "proto_classes", "module": pkg + v + ".types"})
+        exp_is = {}
+        for v in views(spec):
+            exp_is[v] = len(ops)
+            ops.append({"op": "package_exports", "package": pkg + v})
         svc_index = {}
         for f, s in target_services(spec):
             svc_index[s["name"]] = len(ops)
-            ops.append({"op": "client_surface", "module": f"{pkg}.services.{snake(s['name'])}"})
+            ops.append({"op": "client_surface", "module": f"{pkg}{view_of(f['package'])}.services.{snake(s['name'])}"})
         sess_index = {}
         for sk, svc in api.services.items():
             calls, rest_calls = [], []
@@ -1269,13 +1433,15 @@ def run_library(spec, files, api, doc, plan, call_names, deep=True):
                     ops.append(o)
         out = libhost.run(root, ops, timeout=400)
         types = out[1]
-        if sub_i is not None and "classes" in types and "classes" in out[sub_i]:
-            types = {"classes": types["classes"] + out[sub_i]["classes"], "all": types.get("all", [])}
+        parts = [out[i] for i in [1] + sub_is if "classes" in out[i]]
+        if parts:       # a view without kept types has no types module; what is missing shows as missing classes
+            types = {"classes": [c for p_ in parts for c in p_["classes"]], "all": types.get("all", [])}
         md = None
         for f in res.file:
             if f.name.endswith("gapic_metadata.json"):
                 md = json.loads(f.content)
-        return {"import": out[0], "types": types, "surface": {k: out[i] for k, i in svc_index.items()}, "exports": out[exp_i],
+        return {"import": out[0], "types": types, "surface": {k: out[i] for k, i in svc_index.items()}, "exports": out[exp_is[""]],
+                "view_exports": {v: out[i] for v, i in exp_is.items()},
                 "sessions": {k: (out[i], calls) for k, (i, calls) in sess_index.items()},
                 "files": sorted(f.name for f in res.file), "metadata": md}
     finally:
@@ -1319,12 +1485,14 @@ def emitted_types(lib, d):
     return {c["full"] for c in cls if c["kind"] != "error"}, [c for c in cls if c["kind"] == "error" or not c.get("usable")]
 
 
-def expected_client_classes(spec, internal, listed, req_services):
+def expected_client_classes(spec, internal, listed, req_services, view=None):
     """{service name: (sync class, async class)} the statement gives every service the library holds: the service's
     own name + Client/AsyncClient, with the prefix `Base` iff internal mode and some RPC of the service is unlisted"""
     out = {}
     for f, s in target_services(spec):
-        sk = f"{PKG}.{s['name']}"
+        if view is not None and view_of(f["package"]) != view:
+            continue
+        sk = f"{f['package']}.{s['name']}"
         if not (internal or sk in req_services):
             continue
         unlisted = [m for m in s["methods"] if f"{sk}.{m['name']}" not in listed]
@@ -1336,11 +1504,20 @@ def expected_client_classes(spec, internal, listed, req_services):
 def exports_oracle(ctx, spec, lib, internal, listed, req_services, payload):
     """what `from acme.lib_v1 import X` hands out: for every service of the library the two class names of the
     statement, bound to the classes that service's own module defines; no other *Client class."""
-    exp = lib.get("exports") or {}
+    for view in views(spec):
+        exports_oracle_view(ctx, spec, lib, internal, listed, req_services, payload, view)
+
+
+def exports_oracle_view(ctx, spec, lib, internal, listed, req_services, payload, view):
+    """one view (the package acme.lib_v1 itself, or the package of a proto sub-package): it exports the clients of the
+    services declared in exactly that package"""
+    exp = (lib.get("view_exports") or {}).get(view) or {}
+    want = expected_client_classes(spec, internal, listed, req_services, view)
     if "exports" not in exp:
-        ctx.fail("import-error", f"the package does not import: {str(exp)[:200]}", payload)
+        if view and not want:
+            return          # a sub-package none of whose services is in the library need not exist
+        ctx.fail("import-error", f"the package acme.lib_v1{view} does not import: {str(exp)[:200]}", payload)
         return
-    want = expected_client_classes(spec, internal, listed, req_services)
     owners = {}
     for sname, names in want.items():
         for n in names:
@@ -1355,7 +1532,7 @@ def exports_oracle(ctx, spec, lib, internal, listed, req_services, payload):
     for n, ss in owners.items():
         if n in clash:
             continue
-        mod = f"acme.lib_v1.services.{snake(ss[0])}."
+        mod = f"acme.lib_v1{view}.services.{snake(ss[0])}."
         got = exp["exports"].get(n)
         if got is None:
             ctx.fail("internal-names" if internal else "client-classes",
@@ -1376,6 +1553,7 @@ def metadata_oracle(ctx, spec, lib, full, want_rpcs, internal, listed, payload):
         ctx.fail("metadata-missing", "no gapic_metadata.json although the metadata option is set", payload)
         return
     present = {s["name"] for f, s in target_services(spec) if "classes" in lib["surface"][s["name"]]}
+    pkg_of = {s["name"]: f["package"] for f, s in target_services(spec)}
     if set(md.get("services", {})) != present:
         ctx.fail("metadata-surface", f"gapic_metadata services {sorted(md.get('services', {}))} != emitted {sorted(present)}", payload)
     for sname, sd in md.get("services", {}).items():
@@ -1388,7 +1566,7 @@ def metadata_oracle(ctx, spec, lib, full, want_rpcs, internal, listed, payload):
             if set(cd.get("rpcs", {})) != want_rpcs.get(sname, set()):
                 ctx.fail("metadata-surface", f"gapic_metadata {sname}/{tname} lists RPCs {sorted(cd.get('rpcs', {}))}, expected {sorted(want_rpcs.get(sname, set()))}", payload)
             for rpc_name, rd in cd.get("rpcs", {}).items():
-                fq = f"{PKG}.{sname}.{rpc_name}"
+                fq = f"{pkg_of.get(sname, PKG)}.{sname}.{rpc_name}"
                 fcls = set(full["surface"].get(sname, {}).get("classes", {}).get(sname + ("AsyncClient" if cls.endswith("AsyncClient") else "Client"), []))
                 for mn in rd.get("methods", []):
                     if mn.lstrip("_") not in fcls and mn not in fcls:
@@ -1408,7 +1586,7 @@ def t3_api(ctx, r, spec, nvar, label, variants=None):
     gj = g.json()
     plan = call_plan(r, spec, codec)
     all_fq = all_methods(spec, PKG)
-    meth_by_fq = {f"{PKG}.{s['name']}.{m['name']}": m for f, s in target_services(spec) for m in s["methods"]}
+    meth_by_fq = {f"{f['package']}.{s['name']}.{m['name']}": m for f, s in target_services(spec) for m in s["methods"]}
     full = run_library(spec, files, api0, lib_doc(spec), plan, {fq: snake(meth_by_fq[fq]["name"]) for fq in all_fq})
     base_payload = {"kind": "t3", "spec": spec}
     if "gen_error" in full or full["import"].get("errors") or "classes" not in full["types"]:
@@ -1448,7 +1626,10 @@ def t3_api(ctx, r, spec, nvar, label, variants=None):
         lib = run_library(spec, files, api_sel, doc, plan, names)
         ctx.traces += 1
         if "gen_error" in lib:
-            ctx.fail("generation-crash:" + lib["gen_error"][0], f"generator raised {lib['gen_error']}", payload)
+            known = multiview_symptom(spec, api_sel, listed, internal, req_services, lib["gen_error"])
+            ctx.fail(KNOWN_MULTIVIEW if known else "generation-crash:" + lib["gen_error"][0], f"generator raised {lib['gen_error']}", payload)
+            if known:
+                ctx.count("hazard", "t3:multi-view-settings-rejected")
             continue
         if lib["import"].get("errors") or "child_error" in lib["import"]:
             known = "child_error" not in lib["import"] and hazard_import_symptom(d, hz, required, lib["import"].get("errors"))
@@ -1460,7 +1641,7 @@ def t3_api(ctx, r, spec, nvar, label, variants=None):
         # ---- services and RPC surface
         want_rpcs = {}
         for f, s in target_services(spec):
-            sk = f"{PKG}.{s['name']}"
+            sk = f"{f['package']}.{s['name']}"
             surf = lib["surface"][s["name"]]
             want_present = internal or sk in req_services
             present = "classes" in surf
@@ -1678,7 +1859,9 @@ def run(ctx):
                 "services that become empty; files that drop out) x subsets of "
                 "RPCs (random, singletons, all-but-one, all, starting RPC + non-polling RPCs of the operation service; "
                 "every subset for small APIs in the thorough tier) x "
-                "generate_omitted_as_internal in {false,true}; plus settings probes (unknown method/service, dependency method, "
+                "generate_omitted_as_internal in {false,true}; APIs whose services live in several package views (target package "
+                "and proto sub-packages: mixed, twosubs, nested, mixed-nested, sub-only; types shared across views) x subsets "
+                "spanning the views; plus settings probes (unknown method/service, dependency method, "
                 "other version, duplicate version, empty list). distinct by (API, subset, mode) / (API, settings); every "
                 "generated case is non-trivial (selective settings present)")
     ctx.assume("resources are declared on top-level messages or as file-level resource_definition (the generator's own notion of a resource)")
@@ -1702,6 +1885,12 @@ def run(ctx):
         t2_api(ctx, r, spec, 2, f"t2-{a}")
         if a % 4 == 0:
             validation_cases(ctx, r, spec)
+    # ---- services in several package views (target package + proto sub-packages)
+    r = ctx.rng("t2views")
+    for a in range(ctx.n(8, 120)):
+        spec = gen_views_spec(r)
+        vv = view_variants(r, spec)
+        t2_api(ctx, r, spec, 0, f"t2v-{a}", variants=[(spec["listed"], spec["internal"])] + r.sample(vv, 2))
     # ---- every subset of small APIs
     r = ctx.rng("exhaustive")
     done = 0
@@ -1722,6 +1911,11 @@ def run(ctx):
     for a in range(ctx.n(5, 50)):
         spec = gen_spec(r, t3=True, marked_names=True if a % 4 == 1 else None)
         t3_api(ctx, r, spec, ctx.n(3, 4), f"t3-{a}")
+    r = ctx.rng("t3views")
+    for a in range(ctx.n(2, 14)):
+        spec = gen_views_spec(r, t3=True, layout=sorted(VIEW_LAYOUTS)[a % len(VIEW_LAYOUTS)] if a < len(VIEW_LAYOUTS) else None)
+        vv = view_variants(r, spec)
+        t3_api(ctx, r, spec, 0, f"t3v-{a}", variants=vv[:2] + r.sample(vv[2:], ctx.n(1, 2)))
     r = ctx.rng("t3ext")
     for a in range(ctx.n(1, 7)):
         spec = gen_spec(r, t3=True, ext=True)
